@@ -31,6 +31,25 @@ def draw_window(rng, rows):
     return rng.choice(choices)
 
 
+def cp_analysis_first(ta, frames, ranks, salt=0):
+    """history: a critical-path analysis over an annotation window of one rank, on the same object, before the analysis under test.  Whether
+    it succeeds is not the caller's business; the analysis called afterwards must still see the whole trace.  Returns what was run."""
+    import random as _r
+    try:
+        rng = _r.Random(len(ranks) * 7919 + sum(len(v) for v in frames.values()) + salt)
+        r0 = rng.choice(ranks)
+        ann, inst = "", None
+        for _ in range(4):                      # prefer a window that leaves part of the trace out
+            ann, inst = draw_window(rng, frames[r0])
+            if ann != "":
+                break
+        if window_has_events(frames[r0], ann, inst):
+            ta.critical_path_analysis(rank=r0, annotation=ann, instance_id=inst)
+        return [r0, ann, inst]
+    except Exception as e:
+        return ["raised", type(e).__name__]
+
+
 def window_has_events(rows, annotation, instance) -> bool:
     """does the selected window contain at least one event the analysis creates nodes for?  (an empty window is outside
     the property: there is nothing to analyse; the code then fails an internal assertion)"""
